@@ -61,8 +61,8 @@ def record(off, data):
     return le.be_bytes(off, 3) + le.be_bytes(len(data), 2) + data
 
 
-def ips_sequence_contract(f, copier, a, addr_a, b, addr_b):
-    """A writer built by the real constructor, then the writes (A at X), (B at Y), (A at X) again: each write appends its own record, in write
+def ips_sequence_contract(f, copier, a, addr_a, b, addr_b, c):
+    """A writer built by the real constructor, then the writes (A at X), (B at Y), (A at X) again, (C at X, same length as A): each write appends its own record, in write
     order, whatever was written before (a repeated or overlapping write is not merged, reordered or dropped -- the last write wins when the
     file is applied)."""
     w = IPSWriter(f, copier)
@@ -73,8 +73,9 @@ def ips_sequence_contract(f, copier, a, addr_a, b, addr_b):
     w.write_block(a, addr_a)
     w.write_block(b, addr_b)
     w.write_block(a, addr_a)
+    w.write_block(c, addr_a)  # same address, same length, other bytes: a rewrite
     w.end()
-    check("every_write_is_a_record_in_write_order", flat(log) == b"PATCH" + record(addr_a + d, a) + record(addr_b + d, b) + record(addr_a + d, a) + b"EOF")
+    check("every_write_is_a_record_in_write_order", flat(log) == b"PATCH" + record(addr_a + d, a) + record(addr_b + d, b) + record(addr_a + d, a) + record(addr_a + d, c) + b"EOF")
 
 
 def ips_write_block_any_length_contract(w, block, addr):
